@@ -2574,3 +2574,387 @@ Section ChainIndex.
       + intros x Hx. apply M; auto.
   Qed.
 End ChainIndex.
+
+(* ================= 12. chain encoding: index-level roll-up and update == rebuild ================= *)
+Definition cvals (o : rop) (measure : list (option Z)) (chain : list nat) : list rv :=
+  map (fun v => rv_of (nth v measure None) (identity o)) chain.
+Definition ctable (o : rop) (measure : list (option Z)) (chains : list (list nat)) : list (list rv) :=
+  map (fun chain => suffix_folds o (cvals o measure chain)) chains.
+
+Lemma fold_left_combine : forall o (T : nat * nat -> rv) L a,
+  fold_left (fun acc e => combine o acc (T e)) L a = combine o a (mfold o (map T L)).
+Proof.
+  intros o T. induction L as [|e L IH]; intros a; cbn [fold_left map mfold fold_right].
+  - rewrite combine_null_r. reflexivity.
+  - rewrite IH. fold (mfold o (map T L)). symmetry. apply combine_assoc.
+Qed.
+
+Lemma fold_vals_sum : forall measure l,
+  fold_vals OSum (cvals OSum measure l) = RInt (zsum (mval measure) l).
+Proof.
+  intros measure. unfold fold_vals, cvals, zsum. induction l as [|v l IH]; cbn [map fold_right]; [reflexivity|].
+  rewrite IH. assert (Hv : mval measure v = match nth v measure None with Some z => z | None => 0%Z end) by reflexivity.
+  rewrite Hv. destruct (nth v measure None); cbn [rv_of identity combine]; f_equal; lia.
+Qed.
+
+Lemma fold_vals_mm : forall o measure l, identity o = RNull ->
+  fold_vals o (cvals o measure l) = mfold o (map (fun x => rv_of (nth x measure None) RNull) l).
+Proof.
+  intros o measure l Hid. unfold fold_vals, cvals, mfold. destruct o; try discriminate; reflexivity.
+Qed.
+
+Lemma mfold_flat : forall o (g : nat -> rv) (f : nat * nat -> list nat) L,
+  mfold o (map (fun e => mfold o (map g (f e))) L) = mfold o (map g (flat_map f L)).
+Proof.
+  intros o g f. induction L as [|e L IH]; cbn [map flat_map]; [reflexivity|].
+  rewrite map_app, mfold_app. unfold mfold at 1. cbn [fold_right]. fold (mfold o (map (fun e0 => mfold o (map g (f e0))) L)).
+  rewrite IH. reflexivity.
+Qed.
+
+Lemma sum_flat : forall (g : nat -> Z) (f : nat * nat -> list nat) L a,
+  fold_left (fun acc e => combine OSum acc (RInt (zsum g (f e)))) L (RInt a) = RInt (a + zsum g (flat_map f L)).
+Proof.
+  intros g f. induction L as [|e L IH]; intros a; cbn [fold_left flat_map].
+  - cbn. f_equal. lia.
+  - cbn [combine]. rewrite IH, zsum_app. f_equal. lia.
+Qed.
+
+Lemma set_op_map : forall (Fn : rop -> rdata -> rdata) o d acc,
+  map (fun e : rop * rdata => (fst e, Fn (fst e) (snd e))) (set_op o d acc)
+  = set_op o (Fn o d) (map (fun e : rop * rdata => (fst e, Fn (fst e) (snd e))) acc).
+Proof.
+  intros Fn o d acc. unfold set_op. cbn [map fst snd]. f_equal.
+  induction acc as [|[k x] acc IH]; cbn [filter map fst snd]; auto.
+  destruct (negb (rop_eqb o k)); cbn [map fst snd]; rewrite IH; reflexivity.
+Qed.
+
+Lemma fold_left_ext_in_rv : forall (F G : rv -> nat * nat -> rv) L a,
+  (forall acc e, In e L -> F acc e = G acc e) -> fold_left F L a = fold_left G L a.
+Proof.
+  intros F G. induction L as [|e L IH]; intros a H; cbn [fold_left]; auto.
+  rewrite H by (cbn; auto). apply IH. intros acc e' He'. apply H. cbn; auto.
+Qed.
+
+Section ChainRollup.
+  Variables (p : poset) (rk : nat -> nat).
+  Hypothesis W : wf_poset p rk.
+  Hypothesis TO : topo_ok p.
+  Let n := pn p.
+  Let chains := decompose_chains p.
+  Let ix0 := mk_index p (build_chain p) None [].
+
+  Lemma chain_enc : exists rmap, build_chain p = EChain (chain_of_table n chains) chains rmap.
+  Proof. unfold build_chain. eexists. reflexivity. Qed.
+
+  Lemma rollup_data_chain : forall measure o,
+    rollup_data ix0 measure o = RChainSuffix (ctable o measure chains).
+  Proof. intros. reflexivity. Qed.
+
+  (* update_measure refolds exactly the table a rebuild would produce *)
+  Lemma ctable_update : forall o measure node v, length measure = n -> node < n ->
+    let '(cid, pos) := nth node (chain_of_table n chains) (0, 0) in
+    upd (ctable o measure chains) cid
+        (refold o (nth cid chains []) (upd measure node v) (nth cid (ctable o measure chains) []) pos)
+    = ctable o (upd measure node v) chains.
+  Proof.
+    intros o measure node v Hm Hnode.
+    destruct (nth node (chain_of_table n chains) (0, 0)) as [cid pos] eqn:E.
+    destruct (cpos_inv p rk W TO node cid pos Hnode E) as [Hc [Hp En]]. fold chains in Hc, Hp, En.
+    pose proof (chains_partition p rk W TO) as [Pnd _]. fold chains in Pnd.
+    set (ch := nth cid chains []) in *.
+    assert (Hnth : forall c, c < length chains ->
+              nth c (ctable o measure chains) [] = suffix_folds o (cvals o measure (nth c chains []))).
+    { intros c Hcl. unfold ctable.
+      rewrite (nth_indep _ [] (suffix_folds o (cvals o measure []))) by (rewrite map_length; auto).
+      rewrite (map_nth (fun chain => suffix_folds o (cvals o measure chain))). reflexivity. }
+    assert (Hch_nd : NoDup ch) by (apply (NoDup_concat_in chains); auto; apply nth_In; auto).
+    assert (Hother : forall x, In x (concat chains) -> x <> node ->
+              rv_of (nth x (upd measure node v) None) (identity o) = rv_of (nth x measure None) (identity o)).
+    { intros x _ Hne. rewrite nth_upd_other; auto. }
+    apply nth_ext with (d := []) (d' := []).
+    - rewrite upd_length. unfold ctable. rewrite !map_length. reflexivity.
+    - intros c Hcl. rewrite upd_length in Hcl. unfold ctable in Hcl. rewrite map_length in Hcl.
+      assert (Hnth' : nth c (ctable o (upd measure node v) chains) [] = suffix_folds o (cvals o (upd measure node v) (nth c chains []))).
+      { unfold ctable.
+        rewrite (nth_indep _ [] (suffix_folds o (cvals o (upd measure node v) []))) by (rewrite map_length; auto).
+        rewrite (map_nth (fun chain => suffix_folds o (cvals o (upd measure node v) chain))). reflexivity. }
+      rewrite Hnth'. destruct (Nat.eq_dec c cid) as [->|Hne].
+      + rewrite nth_upd by (unfold ctable; rewrite map_length; auto). rewrite Nat.eqb_refl.
+        rewrite Hnth by auto. fold ch.
+        apply (refold_spec o ch (upd measure node v) (suffix_folds o (cvals o measure ch)) pos); auto.
+        * rewrite suffix_folds_length. unfold cvals. rewrite map_length. reflexivity.
+        * intros i Hi Hi2.
+          rewrite !suffix_folds_spec by (unfold cvals; rewrite map_length; lia).
+          f_equal. fold (cvals o (upd measure node v) ch).
+          (* the values at positions > pos are untouched *)
+          unfold cvals. rewrite !skipn_map. apply map_ext_in. intros x Hx.
+          rewrite nth_upd_other; auto. intros ->.
+          apply in_skipn_nth in Hx as [j [Hj Ej]].
+          assert (j = pos); [|lia].
+          apply (proj1 (NoDup_nth ch 0) Hch_nd); auto; try lia; congruence.
+      + rewrite nth_upd_other by auto. rewrite Hnth by auto. f_equal.
+        unfold cvals. apply map_ext_in. intros x Hx. rewrite nth_upd_other; auto. intros ->.
+        (* node would sit on two different chains *)
+        destruct (In_nth _ _ 0 Hx) as [j [Hj Ej]].
+        assert (A : at_pos chains node c j) by (split; auto).
+        pose proof (cpos_at p rk W TO node c j Hcl A) as P1. fold chains in P1.
+        assert (E2 : (c, j) = (cid, pos)) by (etransitivity; [symmetry; exact P1|exact E]).
+        inversion E2. auto.
+  Qed.
+
+  Definition cbuild (measure : list (option Z)) (acc : list (rop * rdata)) (o : rop) : list (rop * rdata) :=
+    match o with OCount => acc | _ => set_op o (rollup_data ix0 measure o) acc end.
+
+  Lemma set_measure_eq : forall measure ops,
+    set_measure ix0 measure ops = mk_index p (build_chain p) (Some measure) (fold_left (cbuild measure) ops []).
+  Proof. reflexivity. Qed.
+
+  Theorem chain_update_is_rebuild : forall measure ops node v, length measure = n -> node < n ->
+    update_measure (set_measure ix0 measure ops) node v = Some (set_measure ix0 (upd measure node v) ops).
+  Proof.
+    intros measure ops node v Hm Hnode. rewrite !set_measure_eq.
+    unfold update_measure, mk_index. cbn [ix_measure ix_poset ix_enc ix_rollups]. f_equal. f_equal.
+    set (ix := {| ix_poset := p; ix_enc := build_chain p; ix_measure := Some measure;
+                  ix_rollups := fold_left (cbuild measure) ops [] |}).
+    set (Fn := fun o d => update_rdata ix (upd measure node v) node (nth node measure None) v o d).
+    assert (HF : forall o, o <> OCount -> Fn o (rollup_data ix0 measure o) = rollup_data ix0 (upd measure node v) o).
+    { intros o Ho. rewrite !rollup_data_chain. unfold Fn, update_rdata, ix. cbn [ix_enc].
+      destruct chain_enc as [rmap ->].
+      pose proof (ctable_update o measure node v Hm Hnode) as U.
+      destruct (nth node (chain_of_table n chains) (0, 0)) as [cid pos]. rewrite U. reflexivity. }
+    assert (G : forall l acc, map (fun e : rop * rdata => (fst e, Fn (fst e) (snd e))) (fold_left (cbuild measure) l acc)
+                = fold_left (cbuild (upd measure node v)) l (map (fun e : rop * rdata => (fst e, Fn (fst e) (snd e))) acc)).
+    { induction l as [|o l IHl]; intros acc; cbn [fold_left]; auto.
+      rewrite IHl. f_equal. destruct o; cbn [cbuild]; auto; rewrite set_op_map, HF by discriminate; reflexivity. }
+    apply (G ops []).
+  Qed.
+
+  Lemma chain_keys : forall y rmap c mm, y < n -> build_chain p = EChain (chain_of_table n chains) chains rmap ->
+    In (c, mm) (nth y rmap []) -> c < length chains /\ mm < length (nth c chains []).
+  Proof.
+    intros y rmap c mm Hy E Hin. pose proof (reach_maps_ok p rk W TO y Hy) as R. rewrite E in R.
+    destruct R as [_ [_ [Hs Hc]]]. pose proof (assoc_in_sorted _ c mm Hs Hin) as A. specialize (Hc c).
+    rewrite A in Hc. destruct Hc as [[z [Hz [_ Ez]]] _].
+    destruct (cpos_inv p rk W TO z c mm Hz Ez) as [H1 [H2 _]]. auto.
+  Qed.
+
+  Lemma ctable_entry : forall oo measure c mm, c < length chains -> mm < length (nth c chains []) ->
+    nth mm (nth c (ctable oo measure chains) []) RNull
+    = fold_vals oo (cvals oo measure (skipn mm (nth c chains []))).
+  Proof.
+    intros oo measure c mm K1 K2. unfold ctable.
+    rewrite (nth_indep _ [] (suffix_folds oo (cvals oo measure []))) by (rewrite map_length; auto).
+    rewrite (map_nth (fun chain => suffix_folds oo (cvals oo measure chain))).
+    rewrite suffix_folds_spec by (unfold cvals; rewrite map_length; lia).
+    unfold cvals. rewrite skipn_map. reflexivity.
+  Qed.
+
+  Theorem chain_rollup_build : forall measure ops y o, length measure = n -> y < n ->
+    (o = OCount \/ In o ops) ->
+    rollup (set_measure ix0 measure ops) y o = Some (rollup_spec p measure y o).
+  Proof.
+    intros measure ops y o Hm Hy Ho. rewrite set_measure_eq.
+    destruct (chain_descendants p rk W TO (Some measure) (fold_left (cbuild measure) ops []) y Hy) as [D1 [D2 [D3 D4]]].
+    cbv zeta in D1, D2, D3, D4.
+    destruct (Nat.eq_dec 0 0) as [_|]; [|lia].
+    destruct o.
+    2:{ (* COUNT *) unfold rollup, rollup_spec. rewrite D3, D4. reflexivity. }
+    all: destruct Ho as [Ho|Ho]; [discriminate|].
+    all: assert (Hperm : Permutation (descendants (mk_index p (build_chain p) (Some measure) (fold_left (cbuild measure) ops [])) y) (spec_desc p y))
+           by (apply NoDup_Permutation; auto; unfold spec_desc; apply NoDup_filter, seq_NoDup).
+    all: destruct chain_enc as [rmap Eenc].
+    all: pose proof (chain_keys y rmap) as Hkey.
+    all: unfold rollup, descendants, mk_index in *; cbn [ix_enc ix_rollups ix_measure] in *.
+    all: change (fold_left (cbuild measure) ops []) with
+           (fold_left (fun acc o' => match o' with OCount => acc | _ => set_op o' (rollup_data ix0 measure o') acc end) ops []).
+    all: rewrite assoc_set_measure by discriminate.
+    all: match goal with |- context [existsb (rop_eqb ?oo) ?l] =>
+           replace (existsb (rop_eqb oo) l) with true
+             by (symmetry; apply existsb_exists; exists oo; split; auto; apply rop_eqb_eq; auto) end.
+    all: rewrite rollup_data_chain; rewrite Eenc in *; f_equal.
+    all: set (L := nth y rmap []) in *.
+    all: set (f := fun e : nat * nat => skipn (snd e) (nth (fst e) chains [])) in *.
+    all: assert (HT : forall oo e, In e L ->
+           nth (snd e) (nth (fst e) (ctable oo measure chains) []) RNull = fold_vals oo (cvals oo measure (f e)))
+         by (intros oo [c mm] Hin; destruct (Hkey c mm Hy eq_refl Hin) as [K1 K2]; apply ctable_entry; auto).
+    - (* SUM *)
+      rewrite (fold_left_ext_in_rv _ (fun acc e => combine OSum acc (RInt (zsum (mval measure) (f e)))) L).
+      + cbn [identity]. rewrite sum_flat.
+        change (rollup_spec p measure y OSum) with
+          (fold_left (fun acc d => match nth d measure None with
+                                   | Some z => combine OSum acc (RInt z)
+                                   | None => acc
+                                   end) (spec_desc p y) (RInt 0)).
+        rewrite spec_sum_fold. f_equal. f_equal. apply zsum_perm. exact Hperm.
+      + intros acc e He. rewrite HT by auto. rewrite fold_vals_sum. reflexivity.
+    - (* MIN *)
+      rewrite (fold_left_ext_in_rv _ (fun acc e => combine OMin acc (mfold OMin (map (fun x => rv_of (nth x measure None) RNull) (f e)))) L).
+      + rewrite fold_left_combine. cbn [identity combine]. rewrite mfold_flat.
+        change (rollup_spec p measure y OMin) with
+          (fold_left (fun acc d => match nth d measure None with
+                                   | Some z => combine OMin acc (RInt z)
+                                   | None => acc
+                                   end) (spec_desc p y) RNull).
+        rewrite spec_mm_fold. cbn [combine]. apply mfold_perm, Permutation_map. exact Hperm.
+      + intros acc e He. rewrite HT by auto. rewrite fold_vals_mm by reflexivity. reflexivity.
+    - (* MAX *)
+      rewrite (fold_left_ext_in_rv _ (fun acc e => combine OMax acc (mfold OMax (map (fun x => rv_of (nth x measure None) RNull) (f e)))) L).
+      + rewrite fold_left_combine. cbn [identity combine]. rewrite mfold_flat.
+        change (rollup_spec p measure y OMax) with
+          (fold_left (fun acc d => match nth d measure None with
+                                   | Some z => combine OMax acc (RInt z)
+                                   | None => acc
+                                   end) (spec_desc p y) RNull).
+        rewrite spec_mm_fold. cbn [combine]. apply mfold_perm, Permutation_map. exact Hperm.
+      + intros acc e He. rewrite HT by auto. rewrite fold_vals_mm by reflexivity. reflexivity.
+  Qed.
+
+  Theorem chain_rollup_after_updates : forall measure ops us, length measure = n ->
+    (forall u, In u us -> fst u < n) ->
+    apply_updates (set_measure ix0 measure ops) us = Some (set_measure ix0 (upd_all measure us) ops) /\
+    forall y o, y < n -> (o = OCount \/ In o ops) ->
+      rollup (set_measure ix0 (upd_all measure us) ops) y o = Some (rollup_spec p (upd_all measure us) y o).
+  Proof.
+    intros measure ops us. revert measure. induction us as [|[node v] us IH]; intros measure Hm Hus.
+    - split; [reflexivity|]. intros y o Hy Ho. apply chain_rollup_build; auto.
+    - cbn [apply_updates]. rewrite chain_update_is_rebuild; auto; [|apply (Hus (node, v)); cbn; auto].
+      unfold upd_all. cbn [fold_left fst snd]. apply IH.
+      + rewrite upd_length. auto.
+      + intros u Hu. apply Hus. cbn; auto.
+  Qed.
+End ChainRollup.
+
+(* ================= 13. lowest common ancestors ================= *)
+(* chain and near-tree compute the LCA set by filtering with the index's own subsumption test, so
+   they inherit its correctness *)
+Lemma existsb_ext_in_nat : forall (f g : nat -> bool) l, (forall a, In a l -> f a = g a) -> existsb f l = existsb g l.
+Proof. induction l as [|a l IH]; intros H; cbn; auto. rewrite H, IH; cbn; auto. intros; apply H; cbn; auto. Qed.
+
+Lemma lca_generic : forall ix p, ix_poset ix = p ->
+  (match ix_enc ix with ENested _ _ _ => False | _ => True end) ->
+  (forall a b, a < pn p -> b < pn p -> subsumes ix a b = spec_subsumes p a b) ->
+  forall x y, x < pn p -> y < pn p -> lowest_common_ancestors ix x y = spec_lca p x y.
+Proof.
+  intros ix p Hp Henc Hs x y Hx Hy. unfold lowest_common_ancestors, spec_lca. rewrite Hp.
+  assert (E : filter (fun c => subsumes ix x c && subsumes ix y c) (nodes p)
+            = filter (fun c => spec_subsumes p x c && spec_subsumes p y c) (nodes p)).
+  { apply filter_ext_in. intros c Hc. unfold nodes in Hc. apply in_seq in Hc. rewrite !Hs by lia. reflexivity. }
+  destruct (ix_enc ix); try contradiction; rewrite E.
+  all: apply filter_ext_in; intros c Hc; apply filter_In in Hc as [Hc _]; unfold nodes in Hc; apply in_seq in Hc.
+  all: f_equal; apply existsb_ext_in_nat; intros d Hd; apply filter_In in Hd as [Hd _]; unfold nodes in Hd; apply in_seq in Hd.
+  all: rewrite Hs by lia; reflexivity.
+Qed.
+
+Lemma filter_none : forall (g : nat -> bool) l, (forall d, In d l -> g d = false) -> filter g l = [].
+Proof. induction l as [|a l IH]; intros H; cbn; auto. rewrite H by (cbn; auto). apply IH. intros; apply H; cbn; auto. Qed.
+
+Lemma filter_single : forall (g : nat -> bool) c l, NoDup l -> In c l ->
+  (forall d, In d l -> g d = (d =? c)) -> filter g l = [c].
+Proof.
+  intros g c. induction l as [|a l IH]; intros Hnd Hin Hg; [destruct Hin|].
+  inversion Hnd; subst. cbn [filter]. rewrite Hg by (cbn; auto).
+  destruct (Nat.eqb_spec a c) as [->|Hne].
+  - f_equal. apply filter_none. intros d Hd. rewrite Hg by (cbn; auto).
+    destruct (Nat.eqb_spec d c); auto. subst. contradiction.
+  - destruct Hin as [->|Hin]; [congruence|]. apply IH; auto. intros d Hd. apply Hg. cbn; auto.
+Qed.
+
+Lemma filter_filter_nat : forall (g1 g2 : nat -> bool) l,
+  filter g2 (filter g1 l) = filter (fun d => g1 d && g2 d) l.
+Proof.
+  induction l as [|a l IH]; cbn; auto. destruct (g1 a); cbn; [destruct (g2 a); rewrite IH; reflexivity|auto].
+Qed.
+
+Section NestedLca.
+  Variables (p : poset) (rk : nat -> nat).
+  Hypothesis W : wf_poset p rk.
+  Hypothesis TO : topo_ok p.
+  Hypothesis F : forest p.
+  Variables (m : option (list (option Z))) (r : list (rop * rdata)).
+  Let n := pn p.
+  Let ix := mk_index p (build_nested p) m r.
+  Let tr (v : nat) : nat := index_of v (ptopo p).
+
+  Lemma sub_reach : forall a b, a < n -> b < n -> (subsumes ix a b = true <-> reach (parents p) a b).
+  Proof.
+    intros a b Ha Hb. unfold ix. rewrite (nested_subsumes p rk m r W F) by auto.
+    apply (spec_subsumes_reach p rk W).
+  Qed.
+
+  Lemma parent_unique : forall x q q', In q (parents p x) -> In q' (parents p x) -> q = q'.
+  Proof.
+    intros x q q' H1 H2. pose proof (F x) as Hl.
+    destruct (parents p x) as [|a [|b l]]; cbn in *; try lia; intuition congruence.
+  Qed.
+
+  Lemma walk_spec : forall x y, x < n -> y < n -> forall fuel cur, cur < n -> n - tr cur < fuel ->
+    reach (parents p) x cur ->
+    (forall d, reach (parents p) x d -> reach (parents p) y d -> reach (parents p) cur d) ->
+    (exists c, lca_walk fuel ix y cur = [c] /\ c < n /\ reach (parents p) x c /\ reach (parents p) y c /\
+               forall d, reach (parents p) x d -> reach (parents p) y d -> reach (parents p) c d) \/
+    (lca_walk fuel ix y cur = [] /\ forall d, reach (parents p) x d -> reach (parents p) y d -> False).
+  Proof.
+    intros x y Hx Hy. induction fuel as [|f IH]; intros cur Hc Hf Hxc Hall; [lia|].
+    cbn [lca_walk]. destruct (subsumes ix y cur) eqn:E.
+    - left. exists cur. apply sub_reach in E; [|assumption|assumption]. repeat split; auto.
+    - assert (Hn : ~ reach (parents p) y cur) by (intros H; apply sub_reach in H; auto; congruence).
+      change (ix_poset ix) with p.
+      destruct (parents p cur) as [|q l] eqn:Ep.
+      + right. split; auto. intros d Hxd Hyd. pose proof (Hall d Hxd Hyd) as Hcd.
+        destruct Hcd as [cur|cur q d Hin _]; [contradiction|]. rewrite Ep in Hin. destruct Hin.
+      + assert (Hq : In q (parents p cur)) by (rewrite Ep; cbn; auto).
+        destruct (wf_lt p rk W cur q Hq) as [_ Hqn].
+        pose proof TO as [_ [Tall Tidx]]. pose proof (Tidx cur q Hq) as Hi. fold (tr cur) in Hi. fold (tr q) in Hi.
+        assert (Htq : tr q < n).
+        { unfold tr. assert (length (ptopo p) = n) by (apply (topo_len p TO)). rewrite <- H.
+          apply index_of_lt. apply Tall. auto. }
+        apply (IH q); auto; try lia.
+        * eapply reach_trans; [exact Hxc|]. eapply reach_step; eauto. constructor.
+        * intros d Hxd Hyd. pose proof (Hall d Hxd Hyd) as Hcd.
+          destruct Hcd as [cur|cur q' d Hin Hq'd]; [contradiction|].
+          rewrite (parent_unique cur q q' Hq Hin). auto.
+  Qed.
+
+  Theorem nested_lca : forall x y, x < n -> y < n ->
+    lowest_common_ancestors ix x y = spec_lca p x y.
+  Proof.
+    intros x y Hx Hy. unfold lowest_common_ancestors. change (ix_enc ix) with (build_nested p).
+    change (build_nested p) with (let '(tin, tout, inv) := nested_arrays (pn p) (children p) (roots p) in ENested tin tout inv).
+    destruct (nested_arrays (pn p) (children p) (roots p)) as [[tin tout] inv] eqn:En.
+    change (ix_poset ix) with p.
+    assert (Hsr : forall a b, a < n -> b < n -> (spec_subsumes p a b = true <-> reach (parents p) a b))
+      by (intros; apply (spec_subsumes_reach p rk W)).
+    assert (Hlt : forall a d, a < n -> reach (parents p) a d -> d < n).
+    { intros a d Ha H. induction H as [|a q d Hin _ IH]; auto. apply IH. apply (wf_lt p rk W) in Hin. tauto. }
+    destruct (walk_spec x y Hx Hy (S (pn p)) x Hx) as [[c [E [Hc [Hxc [Hyc Hmin]]]]]|[E Hno]].
+    - fold n. lia.
+    - constructor.
+    - auto.
+    - rewrite E. symmetry. unfold spec_lca. rewrite filter_filter_nat.
+      apply filter_single.
+      { unfold nodes. apply seq_NoDup. }
+      { unfold nodes. apply in_seq. fold n. lia. }
+      intros d Hd. unfold nodes in Hd. apply in_seq in Hd. fold n in Hd.
+      destruct (Nat.eqb_spec d c) as [->|Hne].
+      + (* c itself is kept *)
+        apply andb_true_iff; split.
+        * apply andb_true_iff; split; apply Hsr; auto.
+        * apply negb_true_iff. apply not_true_is_false. intros Hex. apply existsb_exists in Hex as [d' [Hd' Hb]].
+          apply filter_In in Hd' as [Hd'n Hcom]. unfold nodes in Hd'n. apply in_seq in Hd'n. fold n in Hd'n.
+          apply andb_true_iff in Hcom as [C1 C2]. apply Hsr in C1; try lia. apply Hsr in C2; try lia.
+          apply andb_true_iff in Hb as [Hne Hdc]. apply negb_true_iff, Nat.eqb_neq in Hne. apply Hsr in Hdc; try lia.
+          apply Hne. apply (reach_antisym (parents p) (pn p) rk (wf_rk p rk W) d' c); auto.
+      + (* any other common ancestor has c strictly below it *)
+        destruct (spec_subsumes p x d && spec_subsumes p y d) eqn:Ecom; [|reflexivity]. cbn [andb].
+        apply negb_false_iff. apply existsb_exists. exists c. split.
+        * apply filter_In. split; [unfold nodes; apply in_seq; fold n; lia|].
+          apply andb_true_iff; split; apply Hsr; auto.
+        * apply andb_true_iff in Ecom as [C1 C2]. apply Hsr in C1; try lia. apply Hsr in C2; try lia.
+          apply andb_true_iff; split; [apply negb_true_iff, Nat.eqb_neq; auto|]. apply Hsr; auto; lia.
+    - rewrite E. symmetry. unfold spec_lca.
+      rewrite (filter_none (fun c => spec_subsumes p x c && spec_subsumes p y c)); [reflexivity|].
+      intros d Hd. unfold nodes in Hd. apply in_seq in Hd. fold n in Hd.
+      apply not_true_is_false. intros Hb. apply andb_true_iff in Hb as [C1 C2].
+      apply Hsr in C1; try lia. apply Hsr in C2; try lia. all: try exact (Hno d C1 C2).
+  Qed.
+End NestedLca.
